@@ -345,7 +345,7 @@ def extract(repo):
     _need(re.search(r"int\s+separate_schemas\s*=\s*1\s*;", pf), "print_file: separate_schemas = 1")
     fixed.append(m.group(1))
     sch = _func_body(cw, r"void\s+SCHEMAprint\s*\(\s*Schema\s+schema\s*,")
-    for pat, what in [(r'sprintf\s*\(\s*schnm\s*,\s*"%s%s"\s*,\s*SCHEMA_FILE_PREFIX\s*,\s*StrToUpper\s*\(\s*SCHEMAget_name\s*\(\s*schema\s*\)\s*\)\s*\)', "schnm = SCHEMA_FILE_PREFIX + upper(name)"),
+    for pat, what in [(r'snprintf\s*\(\s*schnm\s*,\s*MAX_LEN\s*,\s*"%s%s"\s*,\s*SCHEMA_FILE_PREFIX\s*,\s*StrToUpper\s*\(\s*SCHEMAget_name\s*\(\s*schema\s*\)\s*\)\s*\)', "schnm = snprintf(MAX_LEN) SCHEMA_FILE_PREFIX + upper(name)"),
                       (r'snprintf\s*\(\s*sufnm\s*,\s*MAX_LEN\s*,\s*"%s_%d"\s*,\s*schnm\s*,\s*suffix\s*\)', "sufnm = schnm_<suffix>"),
                       (r'snprintf\s*\(\s*fnm\s*,\s*MAX_LEN\s*,\s*"%s\.h"\s*,\s*sufnm\s*\)', "<sufnm>.h"),
                       (r'initUnityFiles\s*\(\s*sufnm\s*,\s*files\s*\)', "unity files named after sufnm"),
@@ -361,6 +361,18 @@ def extract(repo):
     _need(re.search(r"suffix\s*=\s*\+\+\*\(\s*int\s*\*\s*\)\s*schema->clientData\s*;\s*SCHEMAprint\s*\(\s*schema\s*,\s*files\s*,\s*complexCol\s*,\s*suffix\s*\)\s*;\s*\}\s*else\s*\{\s*SCHEMAprint\s*\(\s*schema\s*,\s*files\s*,\s*complexCol\s*,\s*0\s*\)", pss),
           "print_schemas_separate: SCHEMAprint with suffix 1,2,.. for a schema printed in several passes, 0 otherwise")
 
+    _need(re.search(r"if\s*\(\s*val1\s*\|\|\s*val2\s*\)\s*\{", pss) and re.search(r"val1\s*=\s*checkTypes\s*\(\s*schema\s*\)\s*;\s*val2\s*=\s*checkEnts\s*\(\s*schema\s*\)", pss),
+          "print_schemas_separate: SCHEMAprint only when checkTypes or checkEnts found something to process (a schema without types and entities is never printed)")
+    m = re.search(r"#define\s+MAX_IDENT_LEN\s+\(\s*MAX_LEN\s*-\s*(\d+)\s*\)", cw)
+    _need(m, "classes_wrapper.cc: #define MAX_IDENT_LEN ( MAX_LEN - <n> )")
+    ident_margin = int(m.group(1))
+    pfb = _blank_strings(pf)
+    g, h = pfb.find("check_identifier_lengths( express )"), pfb.find("print_file_header(")
+    _need(0 <= g < h and _enclosing(pfb, g) == [], "print_file: check_identifier_lengths( express ) is called unconditionally before any file is created")
+    gate = _func_body(cw, r"static\s+int\s+identifier_too_long\s*\(")
+    _need(re.search(r"if\s*\(\s*len\s*<=\s*MAX_IDENT_LEN\s*\)\s*\{\s*return\s+0\s*;", gate), "identifier_too_long: len <= MAX_IDENT_LEN is accepted")
+    chk = _func_body(cw, r"static\s+void\s+check_identifier_lengths\s*\(")
+    _need(re.search(r"if\s*\(\s*scope_names_too_long\s*\(\s*express\s*,\s*0\s*\)\s*\)\s*\{\s*exit\s*\(", chk), "check_identifier_lengths exits when a name is too long")
     all_k = set(kinds)
     L = []
     L.append("/- GENERATED by tools/extract.d/scanner.py from the stepcode working tree — do not edit. -/")
@@ -414,6 +426,8 @@ def extract(repo):
     L.append(f'def unityEntityImpl (schemaUpper : String) : String := "{ue.group(1)}" ++ schemaUpper ++ "{ue.group(2)}"')
     L.append(f'def unityTypeImpl (schemaUpper : String) : String := "{ut.group(1)}" ++ schemaUpper ++ "{ut.group(2)}"')
     L.append(f"def maxLen : Nat := {max_len}")
+    L.append("/-- print_file refuses (exit 1, before any file is created) inputs with an identifier longer than this -/")
+    L.append(f"def maxIdentLen : Nat := maxLen - {ident_margin}")
     L.append("")
     L.append("/-- body of writeLists(): the text streamed into CMakeLists.txt, statement by statement -/")
     L.append("def renderCMakeLists (schemaName shortName schemaUpper inputFile eh ei th ti : String) (ecount tcount : Nat) : String :=")
